@@ -33,7 +33,7 @@ Fold(c, st, isStarted, src, writes, acc) ==
              data == SubSeq(src, 1, k)
              s1 == M(c)!WriteStep(st, isStarted, data)
          IN Fold(c, s1, isStarted \/ st.err = "", SubSeq(src, k + 1, Len(src)), Tail(writes),
-                 Append(acc, <<Len(s1.flushes), Len(s1.flushes)>>))
+                 Append(acc, <<Len(s1.flushes), Len(s1.flushes), s1.err = "">>))
 
 Class(r) == IF r = "" THEN "" ELSE IF r = "resource_exhausted" THEN "resource_exhausted" ELSE "error"
 
@@ -47,6 +47,8 @@ Judge(o) ==
         (IF \A n \in DOMAIN o.steps : o.steps[n].visible = f[3][n][2] /\ o.steps[n].partial = 0 THEN {}
          ELSE {"C16.FlushedInTheCompletingWrite", "C08.SegmentationIndependent"})
         \cup (IF \A n \in DOMAIN o.steps : o.steps[n].written = f[3][n][1] THEN {} ELSE {"C08.SegmentationIndependent"})
+        \* io.Writer: a call the model accepts without an error returns len(p) and no error
+        \cup (IF \A n \in DOMAIN o.steps : f[3][n][3] => (o.steps[n].n = o.steps[n].k /\ ~o.steps[n].err) THEN {} ELSE {"C08.WriteCountHonest"})
         \* C08 / C01: what arrived in the end
         \cup (IF o.final.frames = Len(fin.flushes) /\ o.final.partial = 0 /\ o.final.idsok THEN {} ELSE {"C08.SegmentationIndependent", "C01.ConvertedStreamIntact"})
         \* C09 / C10: the outcome class
